@@ -73,13 +73,34 @@ func spre(s hx.T, acts ...hx.T) hx.T {
 	}
 	return hx.C("SPre", l, s)
 }
-func ocalls(sched []int64, cs ...hx.T) hx.T {
+func aReg(ty int64, f any) hx.T {
+	if f == nil {
+		return hx.C("AReg", ty, "None")
+	}
+	return hx.C("AReg", ty, some(f))
+}
+
+// schedule entries: runs(i, j, ...) = SRun i, SRun j, ...; sreg = a Register by another goroutine
+func runs(ids ...int64) []any {
+	l := make([]any, len(ids))
+	for i, k := range ids {
+		l[i] = hx.C("SRun", k)
+	}
+	return l
+}
+func sreg(ty int64, f any) hx.T {
+	if f == nil {
+		return hx.C("SReg", ty, "None")
+	}
+	return hx.C("SReg", ty, some(f))
+}
+func ocalls(sched []any, cs ...hx.T) hx.T {
 	l := make([]any, len(cs))
 	for i, c := range cs {
 		l[i] = c
 	}
 	if sched == nil {
-		sched = []int64{}
+		sched = []any{}
 	}
 	return hx.C("OCalls", l, sched)
 }
@@ -111,7 +132,7 @@ func enumCalls(emit func([]hx.T)) {
 		}
 	}
 	ps := kindParams()
-	scheds := [][]int64{{}, {1, 0, 0, 1}, {0, 0, 1, 1, 1, 0}}
+	scheds := [][]any{{}, runs(1, 0, 0, 1), runs(0, 0, 1, 1, 1, 0)}
 	for _, a := range ps {
 		ops := head()
 		for i, b := range ps {
@@ -127,8 +148,8 @@ func enumCalls(emit func([]hx.T)) {
 		q := func(k int) hx.T { return ps[(i+k)%len(ps)] }
 		ops := head()
 		ops = append(ops,
-			ocalls([]int64{2, 1, 0}, cRequest(route3(1, 5, 6), q(0)), cNotify(route3(1, 6, 6), q(1)), cRequest(route3(2, 5, 5), q(2))),
-			ocalls([]int64{3, 3, 0, 1, 2, 2, 1, 0}, cRoute(1, q(0)), cRequest(route3(1, 5, 6), q(3)), cRoutePID(2, q(1)), cNotify(route3(3, 5, 6), q(2))),
+			ocalls(runs(2, 1, 0), cRequest(route3(1, 5, 6), q(0)), cNotify(route3(1, 6, 6), q(1)), cRequest(route3(2, 5, 5), q(2))),
+			ocalls(runs(3, 3, 0, 1, 2, 2, 1, 0), cRoute(1, q(0)), cRequest(route3(1, 5, 6), q(3)), cRoutePID(2, q(1)), cNotify(route3(3, 5, 6), q(2))),
 			ocalls(nil, cRequest(route3(1, 5, 6), q(3)), cRequest([]int64{1, 5}, q(0)), cRequest(route3(0, 5, 6), q(1)), cRequest(route3(1, 5, 6), q(3))),
 			ocalls(nil, cRequest(route3(1, 5, 6), q(1))))
 		emit(ops)
@@ -166,8 +187,8 @@ func enumNested(emit func([]hx.T)) {
 					hx.C("ORequest", route3(1, 5, 6), a),
 					ocalls(nil, cRequest(route3(1, 5, 6), a)),
 					ocalls(nil, cRoute(4, a)),
-					ocalls([]int64{0, 1, 1, 0}, cRequest(route3(4, 5, 6), a), cNotify(route3(4, 6, 5), ps[(j+3)%len(ps)])),
-					ocalls([]int64{1, 0}, cRoutePID(1, a), cRoute(4, ps[(j+1)%len(ps)]), cRequest(route3(2, 5, 6), ps[(j+4)%len(ps)])))
+					ocalls(runs(0, 1, 1, 0), cRequest(route3(4, 5, 6), a), cNotify(route3(4, 6, 5), ps[(j+3)%len(ps)])),
+					ocalls(runs(1, 0), cRoutePID(1, a), cRoute(4, ps[(j+1)%len(ps)]), cRequest(route3(2, 5, 6), ps[(j+4)%len(ps)])))
 			}
 			emit(ops)
 		}
@@ -230,6 +251,20 @@ func probeOps() []hx.T {
 	}
 }
 
+// the decisions that consult the default rule, the directory and the lists
+func selfProbeOps() []hx.T {
+	return []hx.T{
+		hx.C("ORequest", route3(1, 5, 6), pNil()),
+		hx.C("ONotify", route3(1, 5, 6), pMap(data(1, 1))),
+		hx.C("ORoutePID", 1, pSess(data())),
+		hx.C("ORoute", 2, pNil()),
+		hx.C("ORequest", route3(2, 5, 6), pSess(data(1, 1))),
+		hx.C("ORequest", route3(9, 5, 6), pStr(1)),
+		hx.C("OQuery", 2), hx.C("OWork", 1),
+		ocalls(nil, cRequest(route3(1, 5, 6), pNil()), cRoutePID(2, pMap(data()))),
+	}
+}
+
 // A: every two-node view over small service-list alphabets, in every combination of states
 func enumViews(states []int64, emit func([]hx.T)) {
 	s1 := [][][]int64{{}, {svc(1, 1)}, {svc(1, 1), svc(1, 2)}, {svc(2, 1)}, {svc(1, -3)}}
@@ -238,8 +273,15 @@ func enumViews(states []int64, emit func([]hx.T)) {
 		for _, st2 := range states {
 			for _, a := range s1 {
 				for _, b := range s2 {
+					// the same view asked from a node that does not know its own address, from
+					// node 1, from node 2 and from a node the view does not list
 					ops := []hx.T{view(node(1, 0, st1, a...), node(2, 2, st2, b...))}
-					emit(append(ops, probeOps()...))
+					ops = append(ops, probeOps()...)
+					for _, self := range []int64{0, 2, 3} {
+						ops = append(ops, hx.C("OSelf", self))
+						ops = append(ops, selfProbeOps()...)
+					}
+					emit(ops)
 				}
 			}
 		}
@@ -354,6 +396,58 @@ func enumUpdates(L int, emit func([]hx.T)) {
 	}
 }
 
+// G: rules that change while calls are in flight.  (a) a rule that registers (lazily installs)
+// the rule of another type and then routes that type; a rule that replaces or removes ITS OWN
+// registration while it runs; the default function registering; (b) another goroutine calling
+// Register (new rule / replacement / removal, for the type in flight and for others) at every
+// position of the schedule of two calls whose rules stop at scheduling points before and after
+// a nested call.
+func enumRegs(emit func([]hx.T)) {
+	ps := kindParams()
+	leafA := hx.C("SKey", 1, tbl(1, rname(1), 2, rname(2)), rname(4), rname(5))
+	leafB := hx.C("SConst", rname(3))
+	leafC := hx.C("SKind", rname(5), rname(3), rname(2))
+	// (a)
+	for i, a := range ps {
+		b := ps[(i+3)%len(ps)]
+		ops := []hx.T{v0(),
+			reg(1, spre(leafA, aReg(2, leafB), aCall(2, b), aReg(2, nil), aCall(2, a))),
+			hx.C("ORequest", route3(1, 5, 6), a),
+			hx.C("ORoute", 2, b),
+			reg(3, spre(leafC, aGet(1), aReg(3, leafB), aYield, aReg(4, spre(leafA, aCall(5, pStr(2)))))),
+			hx.C("ORoutePID", 3, a),
+			hx.C("ORoute", 3, b),
+			hx.C("ORequest", route3(4, 6, 5), a),
+			hx.C("ODefault", hx.C("DFn", spre(leafB, aReg(6, leafC), aReg(1, nil)))),
+			hx.C("ONotify", route3(7, 5, 6), b),
+			hx.C("ORoute", 6, a),
+			hx.C("ORequest", route3(1, 5, 6), a),
+			ocalls(runs(0, 1, 1, 0),
+				cRequest(route3(1, 5, 6), a), cRoute(8, b), cRoutePID(6, a)),
+			hx.C("ORoute", 1, a),
+		}
+		emit(ops)
+	}
+	// (b)
+	outer := spre(leafA, aYield, aCall(2, pMap(data(1, 2))), aYield, aGet(1))
+	regs := []hx.T{sreg(2, leafB), sreg(1, leafC), sreg(1, nil), sreg(9, leafB), sreg(2, nil)}
+	base := runs(0, 1, 0, 1, 0, 1)
+	for i, a := range ps {
+		b := ps[(i+5)%len(ps)]
+		ops := []hx.T{v0(), reg(1, outer), reg(2, leafC)}
+		for pos := 0; pos <= len(base); pos++ {
+			r := regs[(pos+i)%len(regs)]
+			sc := append(append(append([]any{}, base[:pos]...), r), base[pos:]...)
+			ops = append(ops,
+				ocalls(sc, cRequest(route3(1, 5, 6), a), cRoute(1, b)),
+				reg(1, outer), reg(2, leafC), reg(9, nil))
+		}
+		ops = append(ops, ocalls([]any{hx.C("SRun", 0), regs[0], regs[1], hx.C("SRun", 1), regs[2], hx.C("SRun", 2)},
+			cNotify(route3(1, 5, 6), a), cRequest(route3(2, 6, 5), b), cRoutePID(1, b)))
+		emit(ops)
+	}
+}
+
 // ---- random ----
 
 type rgen struct {
@@ -417,14 +511,31 @@ func (g *rgen) scriptFor(ty int64, dflt bool) hx.T {
 	}
 	g.tags["gen-rule-with-prefix"] = true
 	var acts []hx.T
+	deep := 0
 	for n := 1 + g.r.Intn(3); n > 0; n-- {
-		switch g.r.Intn(4) {
+		switch g.r.Intn(5) {
 		case 0:
 			acts = append(acts, aYield)
 		case 1:
 			acts = append(acts, aGet(1+g.r.Int63n(2)))
+		case 2:
+			// a rule that registers: only for types above its own, with functions that obey
+			// the same discipline, so registered rules still cannot form a cycle
+			g.tags["gen-rule-registers"] = true
+			rty := ty + 1 + g.r.Int63n(3)
+			if dflt {
+				rty = g.ty()
+			}
+			if g.r.Intn(4) == 0 {
+				acts = append(acts, aReg(rty, nil))
+			} else if dflt {
+				acts = append(acts, aReg(rty, g.script()))
+			} else {
+				acts = append(acts, aReg(rty, g.scriptFor(rty, false)))
+			}
 		default:
-			if dflt || g.r.Intn(4) == 0 {
+			deep++
+			if dflt || deep > 2 || ty >= 5 || g.r.Intn(4) == 0 {
 				if g.r.Intn(2) == 0 {
 					acts = append(acts, aCall(g.ty(), pStr(g.name())))
 				} else {
@@ -457,9 +568,19 @@ func (g *rgen) calls() hx.T {
 	for i := range cs {
 		cs[i] = g.pcall()
 	}
-	sched := []int64{}
+	sched := []any{}
 	for k := g.r.Intn(9); k > 0; k-- {
-		sched = append(sched, g.r.Int63n(4))
+		if g.r.Intn(5) == 0 {
+			g.tags["gen-register-in-flight"] = true
+			ty := g.ty()
+			if g.r.Intn(5) == 0 {
+				sched = append(sched, sreg(ty, nil))
+			} else {
+				sched = append(sched, sreg(ty, g.scriptFor(ty, false)))
+			}
+		} else {
+			sched = append(sched, hx.C("SRun", g.r.Int63n(6)-1))
+		}
 	}
 	return ocalls(sched, cs...)
 }
@@ -563,8 +684,10 @@ func genRandom(r *rand.Rand, maxLen int) ([]hx.T, map[string]bool) {
 			ops = append(ops, hx.C("ORoute", g.ty(), g.param()))
 		case p < 44:
 			ops = append(ops, hx.C("ORoutePID", g.ty(), g.param()))
-		case p < 48:
+		case p < 46:
 			ops = append(ops, g.calls())
+		case p < 48:
+			ops = append(ops, hx.C("OSelf", g.r.Int63n(5)-1))
 		case p < 69:
 			ops = append(ops, hx.C("ORequest", g.route(), g.param()))
 		case p < 81:
@@ -584,9 +707,25 @@ func genRandom(r *rand.Rand, maxLen int) ([]hx.T, map[string]bool) {
 
 // ---- entry point ----
 
+// maxHung: after this many histories that ran into a call that never returns the run stops
+// generating and reports what it has - on code that locks up every further history would only
+// cost more watchdogs, and the hung ones are already concrete failures.
+const maxHung = 3
+
 func Run(cfg *hx.Config) error {
+	hungCases, stopped := 0, false
 	emit := func(kind string, ops []hx.T, extra map[string]bool) {
-		obs, st := Exec(ops)
+		if stopped {
+			return
+		}
+		obs, st, hung := Exec(ops)
+		if hung {
+			hungCases++
+			if cfg.In == "" && hungCases >= maxHung {
+				stopped = true
+				fmt.Printf("c07: %d histories hung - generation stopped after %d cases\n", hungCases, cfg.Emitted()+1)
+			}
+		}
 		for t := range extra {
 			st.tags[t] = true
 		}
@@ -631,6 +770,7 @@ func Run(cfg *hx.Config) error {
 	enumUpdates(L, func(ops []hx.T) { emit("exhaustive-updates", ops, nil) })
 	enumCalls(func(ops []hx.T) { emit("exhaustive-calls", ops, nil) })
 	enumNested(func(ops []hx.T) { emit("exhaustive-nested", ops, nil) })
+	enumRegs(func(ops []hx.T) { emit("exhaustive-registers", ops, nil) })
 	for i := 0; i < cfg.N; i++ {
 		maxLen := 14
 		if i%4 == 3 {
